@@ -170,7 +170,8 @@ class ExpandedTraceback:
             else:
                 end_lineno = lineno
                 end_offset = 1 + offset
-            fake_frame = FakeFrame("<module>", self.exception.filename,
+            filename = self.exception.filename if self.exception.filename is not None else "<string>"
+            fake_frame = FakeFrame("<module>", filename,
                                    lineno, None, offset-1, end_lineno, end_offset-1)
             self._fix_frame_line(fake_frame)
             # Skulpt compatibility hack, to prevent duplicate tracebacks
@@ -288,13 +289,14 @@ class ExpandedTraceback:
         if IS_AT_LEAST_PYTHON_313:
             # Renamed _line to _lines in 3.13
             # https://github.com/python/cpython/commit/939fc6d6eab9b7ea8c244d513610dbdd556503a7
-            end_offset = frame.end_colno+1 if frame.lineno == frame.end_lineno else len(frame.line)
-            return formatter.python_code(frame.line, focus=Location(0, frame.colno + 1, 0, end_offset))
+            line = frame.line if frame.line is not None else ''
+            end_offset = frame.end_colno+1 if frame.lineno == frame.end_lineno else len(line)
+            return formatter.python_code(line, focus=Location(0, frame.colno + 1, 0, end_offset))
         elif IS_AT_LEAST_PYTHON_311:
-            end_offset = frame.end_colno+1 if frame.lineno == frame.end_lineno else len(frame._line)
             # Note: Need to use _line because in 3.10 and above, the line gets stripped.
             # https://github.com/python/cpython/commit/5644c7b3ffd49bed58dc095be6e6148e0bb4431e
             line = frame._line if frame._line is not None else ''
+            end_offset = frame.end_colno+1 if frame.lineno == frame.end_lineno else len(line)
             return formatter.python_code(line, focus=Location(0, frame.colno+1, 0, end_offset))
         elif IS_AT_LEAST_PYTHON_310:
             return formatter.python_code(frame._line if frame._line is not None else '')
